@@ -18,6 +18,7 @@ package main
 import (
 	"go/ast"
 	"go/constant"
+	"go/token"
 	"go/types"
 
 	"golang.org/x/tools/go/cfg"
@@ -95,6 +96,39 @@ func c20MembershipOf(c *Ctx, info *types.Info, fn *types.Func) *c20Member {
 			}
 		}
 		return -1
+	}
+	// a body of if/return statements around a library search: H returns true only if
+	// slices.ContainsFunc(list, func(q) bool { return samePlacement(p, q) }) (or IndexFunc(...) >= 0) holds
+	if alts, ok := c20BoolBody(info, fi.Decl.Body.List, 0); ok && len(alts) > 0 {
+		c20MemberDepth++
+		elem, lst := -1, -1
+		good := true
+		for _, alt := range alts {
+			found := false
+			for _, l := range alt {
+				el, le, _, ok := c20MemberLeaf(c, info, l, nil)
+				if !ok {
+					continue
+				}
+				lid, isID := unparen(le).(*ast.Ident)
+				if !isID {
+					continue
+				}
+				ei, li := idxOf(el), idxOf(info.Uses[lid])
+				if ei >= 0 && li >= 0 && ei != li && (elem < 0 || (elem == ei && lst == li)) {
+					elem, lst, found = ei, li, true
+				}
+			}
+			if !found {
+				good = false
+			}
+		}
+		c20MemberDepth--
+		if good && elem >= 0 {
+			m.ok, m.elem, m.lst = true, elem, lst
+			return m
+		}
+		return nil
 	}
 	// parameters must not be reassigned
 	reassigned := false
@@ -235,4 +269,302 @@ func c20MembershipOf(c *Ctx, info *types.Info, fn *types.Func) *c20Member {
 	}
 	m.ok, m.elem, m.lst = true, elem, L.lst
 	return m
+}
+
+// ---- membership tests written with library searches and named booleans
+//
+//   * slices.ContainsFunc(list, pred) (package slices or golang.org/x/exp/slices) is true only if pred(q) is true for
+//     an element q of list, and false only if pred is false for every element;
+//   * slices.IndexFunc(list, pred) is -1 if pred is false for every element and the index of an element with pred(q)
+//     true otherwise: a comparison `idx op k` that -1 does not satisfy holds only if such an element exists;
+//   * pred is a function literal (or a local defined once as one) whose body consists of if/return statements; it is
+//     evaluated to the alternatives under which it returns true, each of which has to contain samePlacement(x, q)
+//     for the literal's parameter q: pred(q) true implies samePlacement(x, q);
+//   * a local boolean (or index) defined once inside the iteration stands for its defining expression, provided
+//     neither the placement looked for nor the list searched is assigned in the iteration.
+
+// c20BoolBody: the alternatives (conjunctions of leaves) under which a body made of if/return statements returns
+// true. ok=false for any other statement form.
+func c20BoolBody(info *types.Info, stmts []ast.Stmt, depth int) ([][]c20Leaf, bool) {
+	if len(stmts) == 0 || depth > 8 {
+		return nil, false
+	}
+	switch s := stmts[0].(type) {
+	case *ast.ReturnStmt:
+		if len(s.Results) != 1 {
+			return nil, false
+		}
+		return c20PruneConst(info, c20DNF(s.Results[0], true)), true
+	case *ast.BlockStmt:
+		return c20BoolBody(info, append(append([]ast.Stmt(nil), s.List...), stmts[1:]...), depth+1)
+	case *ast.IfStmt:
+		if s.Init != nil {
+			return nil, false
+		}
+		thenS := append(append([]ast.Stmt(nil), s.Body.List...), stmts[1:]...)
+		elseS := stmts[1:]
+		if s.Else != nil {
+			elseS = append([]ast.Stmt{s.Else}, stmts[1:]...)
+		}
+		tA, ok1 := c20BoolBody(info, thenS, depth+1)
+		eA, ok2 := c20BoolBody(info, elseS, depth+1)
+		if !ok1 || !ok2 {
+			return nil, false
+		}
+		var out [][]c20Leaf
+		for _, c := range c20PruneConst(info, c20DNF(s.Cond, true)) {
+			for _, a := range tA {
+				out = append(out, append(append([]c20Leaf(nil), c...), a...))
+			}
+		}
+		for _, c := range c20PruneConst(info, c20DNF(s.Cond, false)) {
+			for _, a := range eA {
+				out = append(out, append(append([]c20Leaf(nil), c...), a...))
+			}
+		}
+		if len(out) > 64 {
+			return nil, false
+		}
+		return out, true
+	}
+	return nil, false
+}
+
+// c20PruneConst drops constant leaves: a leaf that always holds is removed, an alternative with a leaf that never
+// holds is removed.
+func c20PruneConst(info *types.Info, alts [][]c20Leaf) [][]c20Leaf {
+	var out [][]c20Leaf
+	for _, alt := range alts {
+		var keep []c20Leaf
+		dead := false
+		for _, l := range alt {
+			if l.e != nil {
+				if tv, ok := info.Types[l.e]; ok && tv.Value != nil && tv.Value.Kind() == constant.Bool {
+					if constant.BoolVal(tv.Value) != l.pol {
+						dead = true
+					}
+					continue
+				}
+			}
+			keep = append(keep, l)
+		}
+		if !dead {
+			out = append(out, keep)
+		}
+	}
+	return out
+}
+
+// c20PredElem: pred(q) true implies samePlacement(x, q) for a variable x of the enclosing function; returns x.
+func c20PredElem(info *types.Info, pred ast.Expr) types.Object {
+	pred = unparen(pred)
+	if id, ok := pred.(*ast.Ident); ok {
+		if d := singleDefOf(info, info.Uses[id]); d != nil {
+			pred = unparen(d)
+		}
+	}
+	lit, ok := pred.(*ast.FuncLit)
+	if !ok || lit.Type.Params == nil || len(lit.Type.Params.List) != 1 || len(lit.Type.Params.List[0].Names) != 1 {
+		return nil
+	}
+	q := info.Defs[lit.Type.Params.List[0].Names[0]]
+	if q == nil {
+		return nil
+	}
+	alts, ok := c20BoolBody(info, lit.Body.List, 0)
+	if !ok || len(alts) == 0 {
+		return nil
+	}
+	var x types.Object
+	for _, alt := range alts {
+		found := false
+		for _, l := range alt {
+			objs, ok := c20SamePlacementLeaf(info, l)
+			if !ok {
+				continue
+			}
+			for i := 0; i < 2; i++ {
+				if objs[i] == q && objs[1-i] != nil && objs[1-i] != q && (x == nil || x == objs[1-i]) {
+					x = objs[1-i]
+					found = true
+				}
+			}
+		}
+		if !found {
+			return nil
+		}
+	}
+	if v, ok := x.(*types.Var); !ok || v.IsField() {
+		return nil
+	}
+	return x
+}
+
+func c20SlicesFunc(info *types.Info, e ast.Expr, name string) *ast.CallExpr {
+	call, ok := unparen(e).(*ast.CallExpr)
+	if !ok || len(call.Args) != 2 {
+		return nil
+	}
+	fn := calleeOf(info, call)
+	if fn == nil || fn.Pkg() == nil || fn.Name() != name {
+		return nil
+	}
+	if p := fn.Pkg().Path(); p != "slices" && p != "golang.org/x/exp/slices" {
+		return nil
+	}
+	return call
+}
+
+// c20MemberLeaf: "l.e has the truth value l.pol" implies that samePlacement(elem, q) holds for an element q of lst.
+// deferred: the leaf was resolved through a local defined earlier (in the iteration containing scope), so elem and
+// lst are the values at that definition.
+func c20MemberLeaf(c *Ctx, info *types.Info, l c20Leaf, scope ast.Node) (elem types.Object, lst ast.Expr, deferred, ok bool) {
+	if l.e == nil {
+		return
+	}
+	e := unparen(l.e)
+	// a call, or a local defined once as one inside scope
+	resolve := func(x ast.Expr) (ast.Expr, bool) {
+		x = unparen(x)
+		id, isID := x.(*ast.Ident)
+		if !isID {
+			return x, false
+		}
+		v, isVar := info.Uses[id].(*types.Var)
+		if !isVar || v.IsField() || scope == nil || v.Pos() < scope.Pos() || v.Pos() > scope.End() {
+			return x, false
+		}
+		if d := singleDefOf(info, v); d != nil {
+			return unparen(d), true
+		}
+		return x, false
+	}
+	if call, isCall := e.(*ast.CallExpr); isCall && l.pol {
+		if cf := c20SlicesFunc(info, call, "ContainsFunc"); cf != nil {
+			if x := c20PredElem(info, cf.Args[1]); x != nil {
+				return x, cf.Args[0], false, true
+			}
+			return
+		}
+		if m := c20MembershipOf(c, info, calleeOf(info, call)); m != nil && m.elem < len(call.Args) && m.lst < len(call.Args) {
+			if id, isID := unparen(call.Args[m.elem]).(*ast.Ident); isID && info.Uses[id] != nil {
+				return info.Uses[id], call.Args[m.lst], false, true
+			}
+		}
+		return
+	}
+	if be, isBin := e.(*ast.BinaryExpr); isBin {
+		op := be.Op
+		switch op {
+		case token.EQL, token.NEQ, token.LSS, token.LEQ, token.GTR, token.GEQ:
+		default:
+			return
+		}
+		xe, ye := be.X, be.Y
+		if _, isConst := constInt(info, xe); isConst {
+			xe, ye = ye, xe
+			op = c20SwapOp(op)
+		}
+		k, isConst := constInt(info, ye)
+		if !isConst {
+			return
+		}
+		if !l.pol {
+			op = negOp(op)
+		}
+		src, viaLocal := resolve(xe)
+		idx := c20SlicesFunc(info, src, "IndexFunc")
+		if idx == nil {
+			return
+		}
+		// does the "not found" result -1 satisfy the comparison?
+		var sat bool
+		switch op {
+		case token.EQL:
+			sat = -1 == k
+		case token.NEQ:
+			sat = -1 != k
+		case token.LSS:
+			sat = -1 < k
+		case token.LEQ:
+			sat = -1 <= k
+		case token.GTR:
+			sat = -1 > k
+		case token.GEQ:
+			sat = -1 >= k
+		}
+		if sat {
+			return
+		}
+		if x := c20PredElem(info, idx.Args[1]); x != nil {
+			return x, idx.Args[0], viaLocal, true
+		}
+	}
+	return
+}
+
+func c20SwapOp(op token.Token) token.Token {
+	switch op {
+	case token.LSS:
+		return token.GTR
+	case token.LEQ:
+		return token.GEQ
+	case token.GTR:
+		return token.LSS
+	case token.GEQ:
+		return token.LEQ
+	}
+	return op
+}
+
+// c20ExpandNamed replaces, in every alternative, a leaf that is a local boolean defined once inside scope by the
+// alternatives of its defining expression. named[i] tells whether alternative i went through such a local.
+func c20ExpandNamed(info *types.Info, alts [][]c20Leaf, scope ast.Node, depth int) (out [][]c20Leaf, named []bool) {
+	for _, alt := range alts {
+		cur := [][]c20Leaf{nil}
+		viaLocal := false
+		for _, l := range alt {
+			repl := [][]c20Leaf{{l}}
+			if id, isID := unparen(c20Or(l.e)).(*ast.Ident); isID && depth < 3 && scope != nil {
+				if v, isVar := info.Uses[id].(*types.Var); isVar && !v.IsField() && v.Pos() >= scope.Pos() && v.Pos() <= scope.End() {
+					if d := singleDefOf(info, v); d != nil {
+						if tv, known := info.Types[d]; !known || tv.Value == nil {
+							sub, _ := c20ExpandNamed(info, c20DNF(d, l.pol), scope, depth+1)
+							if len(sub) > 0 && len(sub) <= 16 {
+								repl = sub
+								viaLocal = true
+							}
+						}
+					}
+				}
+			}
+			var next [][]c20Leaf
+			for _, a := range cur {
+				for _, r := range repl {
+					next = append(next, append(append([]c20Leaf(nil), a...), r...))
+				}
+			}
+			cur = next
+		}
+		for _, a := range cur {
+			out = append(out, a)
+			named = append(named, viaLocal)
+		}
+	}
+	return out, named
+}
+
+// c20AnyNode: containsNode that also looks into function literals.
+func c20AnyNode(top ast.Node, pred func(ast.Node) bool) bool {
+	found := false
+	ast.Inspect(top, func(n ast.Node) bool {
+		if n == nil || found {
+			return false
+		}
+		if pred(n) {
+			found = true
+		}
+		return !found
+	})
+	return found
 }
